@@ -7,6 +7,7 @@ import (
 	"reflect"
 	"strconv"
 	"strings"
+	"sync"
 	"testing"
 
 	"github.com/alecthomas/participle/v2"
@@ -30,6 +31,23 @@ var (
 		{Name: "Sign", Pattern: `[-+]`}, {Name: "Tok", Pattern: `[^\s;+-][^\s;]*`}, {Name: "Semi", Pattern: `;`}, {Name: "WS", Pattern: `\s+`},
 	})
 )
+
+// numbers written as quoted strings: the text the field converts is what Unquote makes of the token (may be empty)
+var c17StrLex = lexer.MustSimple([]lexer.SimpleRule{
+	{Name: "String", Pattern: `"[^"]*"`}, {Name: "Tok", Pattern: `[^\s;"]+`}, {Name: "Semi", Pattern: `;`}, {Name: "WS", Pattern: `\s+`},
+})
+
+type numQuoted[T any] struct {
+	V T `@String`
+}
+type numQuotedSlice[T any] struct {
+	V []T `@String+`
+}
+
+// numParts: a number written in up to four tokens, the later ones matched inside an optional group: 1e +5
+type numParts[T any] struct {
+	V T `@(Sign? Tok (Sign Tok)?)`
+}
 
 type numScalar[T any] struct {
 	V T `@Tok`
@@ -136,6 +154,9 @@ func mkNumKind[T any](name, class string, bits int) numKind {
 		pTwice  *participle.Parser[numTwice[T]]
 		pPadded *participle.Parser[numScalar[T]]
 		pNeg    *participle.Parser[numNegated[T]]
+		pQuoted *participle.Parser[numQuoted[T]]
+		pQuoSl  *participle.Parser[numQuotedSlice[T]]
+		pParts  *participle.Parser[numParts[T]]
 	)
 	opts := []participle.Option{participle.Lexer(c17Lex), participle.Elide("WS")}
 	return numKind{name: name, class: class, bits: bits, run: func(shape, input string) (res numRes) {
@@ -244,6 +265,33 @@ func mkNumKind[T any](name, class string, bits int) numKind {
 				if err == nil {
 					res.vals = fieldVals(reflect.ValueOf(ast).Elem().Field(1))
 				}
+			case "quoted":
+				if pQuoted == nil {
+					pQuoted = participle.MustBuild[numQuoted[T]](participle.Lexer(c17StrLex), participle.Elide("WS"), participle.Unquote("String"))
+				}
+				ast, err := pQuoted.ParseString("f", input)
+				res.err = err
+				if err == nil {
+					res.vals = fieldVals(reflect.ValueOf(ast).Elem().Field(0))
+				}
+			case "quotedslice":
+				if pQuoSl == nil {
+					pQuoSl = participle.MustBuild[numQuotedSlice[T]](participle.Lexer(c17StrLex), participle.Elide("WS"), participle.Unquote("String"))
+				}
+				ast, err := pQuoSl.ParseString("f", input)
+				res.err = err
+				if err == nil {
+					res.vals = fieldVals(reflect.ValueOf(ast).Elem().Field(0))
+				}
+			case "parts":
+				if pParts == nil {
+					pParts = participle.MustBuild[numParts[T]](participle.Lexer(c17SignLex), participle.Elide("WS"))
+				}
+				ast, err := pParts.ParseString("f", input)
+				res.err = err
+				if err == nil {
+					res.vals = fieldVals(reflect.ValueOf(ast).Elem().Field(0))
+				}
 			case "after":
 				if pAfter == nil {
 					pAfter = participle.MustBuild[numAfter[T]](opts...)
@@ -297,6 +345,7 @@ type c17Case struct {
 	Shape  string   `json:"shape"` // scalar | ptr | slice | slicecap | signed | signedptr | nested | outer | after
 	Texts  []string `json:"texts"` // token texts (slice: several; signed: [sign, digits]; others: one)
 	Spaces string   `json:"spaces,omitempty"`
+	Par    int      `json:"par,omitempty"` // > 1: also converted while that many goroutines use the same parser
 }
 
 func (c *c17Case) input() string {
@@ -305,6 +354,24 @@ func (c *c17Case) input() string {
 		return strings.Join(c.Texts, " ")
 	case "signed", "signedptr":
 		return c.Texts[0] + c.Spaces + c.Texts[1]
+	case "quoted", "quotedslice":
+		var parts []string
+		for _, t := range c.Texts {
+			parts = append(parts, `"`+t+`"`)
+		}
+		return strings.Join(parts, c.Spaces)
+	case "parts":
+		// [sign] tok [sign tok]: a blank in front of the second sign keeps it out of the first token
+		var sb strings.Builder
+		for i, t := range c.Texts {
+			if i > 0 && (t == "+" || t == "-") {
+				sb.WriteString(" ")
+			} else if i > 0 {
+				sb.WriteString(c.Spaces)
+			}
+			sb.WriteString(t)
+		}
+		return sb.String()
 	case "nested":
 		return c.Texts[0] + " x"
 	case "twice":
@@ -382,7 +449,66 @@ const c17Rule = "static grammars for every numeric kind (int8..int64, int, uint8
 	"enclosing alternative captures the text as a string and the numeric node is absent); non-trivial = the text is within +-1 of a width " +
 	"boundary or uses a prefix, underscore, exponent or Inf/NaN spelling; distinct by SHA-256 of the case"
 
+// checkC17 judges the case on its own and, for Par > 1, also while Par goroutines convert other numbers with the
+// same parser: what a capture stores is the value of its own text, whoever else is parsing.
 func checkC17(c *c17Case, r *vstat.Run) outcome {
+	o := checkC17One(c, r)
+	if o.failed() || c.Par < 2 {
+		return o
+	}
+	k := numKindByName(c.Kind)
+	type outc struct {
+		err  string
+		vals string
+	}
+	run := func(in string) outc {
+		res := k.run(c.Shape, in)
+		e := ""
+		if res.err != nil {
+			e = res.err.Error()
+		}
+		return outc{e + res.panicMsg, fmtVals(res.vals)}
+	}
+	inputs := make([]string, c.Par)
+	alone := make([]outc, c.Par)
+	for g := range inputs {
+		cc := *c
+		cc.Texts = append([]string(nil), c.Texts...)
+		if g > 0 {
+			cc.Texts[len(cc.Texts)-1] = fmt.Sprint(7 + 13*g) // another number of the same shape
+		}
+		inputs[g] = cc.input()
+		alone[g] = run(inputs[g])
+	}
+	var wg sync.WaitGroup
+	bad := make([]string, c.Par)
+	start := make(chan struct{})
+	for g := range inputs {
+		wg.Add(1)
+		go func(g int) {
+			defer wg.Done()
+			<-start
+			for i := 0; i < 150 && bad[g] == ""; i++ {
+				if got := run(inputs[g]); got != alone[g] {
+					bad[g] = fmt.Sprintf("input %q: alone it gives values %s error %q, next to %d other goroutines using the same parser it gives values %s error %q", inputs[g], alone[g].vals, alone[g].err, c.Par-1, got.vals, got.err)
+				}
+			}
+		}(g)
+	}
+	close(start)
+	wg.Wait()
+	if r != nil {
+		r.Count("case_converted_by_several_goroutines_at_once")
+	}
+	for _, b := range bad {
+		if b != "" {
+			return violationf("concurrent-value", "kind %s shape %s: %s", c.Kind, c.Shape, b)
+		}
+	}
+	return outcome{}
+}
+
+func checkC17One(c *c17Case, r *vstat.Run) outcome {
 	k := numKindByName(c.Kind)
 	if k == nil {
 		return violationf("harness", "unknown kind %q", c.Kind)
@@ -390,8 +516,17 @@ func checkC17(c *c17Case, r *vstat.Run) outcome {
 	input := c.input()
 	// make sure the lexer really yields the texts as tokens (otherwise the case is outside the domain)
 	def := lexer.Definition(c17Lex)
-	if c.Shape == "signed" || c.Shape == "signedptr" {
+	if c.Shape == "signed" || c.Shape == "signedptr" || c.Shape == "parts" {
 		def = c17SignLex
+	}
+	quoted := c.Shape == "quoted" || c.Shape == "quotedslice"
+	if quoted {
+		def = c17StrLex
+		for _, t := range c.Texts {
+			if strings.ContainsAny(t, "\"\\\n\r") {
+				return outcome{} // outside the domain: Unquote would not give back the text as it is
+			}
+		}
 	}
 	if c.Shape == "padded" {
 		def = c17PadLex
@@ -410,7 +545,7 @@ func checkC17(c *c17Case, r *vstat.Run) outcome {
 		return outcome{}
 	}
 	for i := range toks {
-		if toks[i].Value != c.Texts[i] {
+		if want := c.Texts[i]; toks[i].Value != want && !(quoted && toks[i].Value == `"`+want+`"`) {
 			if r != nil {
 				r.Count("skipped_text_not_lexed_as_given")
 			}
@@ -429,12 +564,14 @@ func checkC17(c *c17Case, r *vstat.Run) outcome {
 	// expected
 	var wants []numWant
 	switch c.Shape {
-	case "slice", "slicecap":
+	case "slice", "slicecap", "quotedslice":
 		for _, t := range c.Texts {
 			wants = append(wants, numExpect(k, t))
 		}
 	case "signed", "signedptr":
 		wants = []numWant{numExpect(k, c.Texts[0]+c.Texts[1])}
+	case "parts":
+		wants = []numWant{numExpect(k, strings.Join(c.Texts, ""))}
 	case "twice":
 		wants = []numWant{numExpect(k, c.Texts[0]), numExpect(k, c.Texts[1])}
 	default:
@@ -504,7 +641,7 @@ func checkC17(c *c17Case, r *vstat.Run) outcome {
 		return violationf("error-type", "%s: error %v (%T) is not a participle.Error", desc, res.err, res.err)
 	}
 	first := toks[0]
-	if c.Shape == "slice" || c.Shape == "twice" {
+	if c.Shape == "slice" || c.Shape == "twice" || c.Shape == "quotedslice" {
 		first = toks[firstBad] // every element is a capture of its own, located at the failing one
 	}
 	if perr.Position() != first.Pos {
@@ -593,7 +730,7 @@ func genNumText(t *rapid.T) (string, bool) {
 func TestC17(t *testing.T) {
 	runProp(t, "C17", c17Rule, func(t *rapid.T, r *vstat.Run) {
 		k := numKinds[rapid.IntRange(0, len(numKinds)-1).Draw(t, "kind")]
-		c := &c17Case{Kind: k.name, Shape: rapid.SampledFrom([]string{"scalar", "scalar", "ptr", "slice", "slicecap", "signed", "signedptr", "nested", "twice", "padded", "outer", "after", "negated"}).Draw(t, "shape")}
+		c := &c17Case{Kind: k.name, Shape: rapid.SampledFrom([]string{"scalar", "scalar", "ptr", "slice", "slicecap", "signed", "signedptr", "nested", "twice", "padded", "outer", "after", "negated", "quoted", "quotedslice", "parts"}).Draw(t, "shape")}
 		nt := false
 		switch c.Shape {
 		case "slice", "slicecap":
@@ -603,6 +740,45 @@ func TestC17(t *testing.T) {
 				c.Texts = append(c.Texts, s)
 				nt = nt || b
 			}
+		case "quoted", "quotedslice":
+			n := 1
+			if c.Shape == "quotedslice" {
+				n = rapid.IntRange(1, 3).Draw(t, "n")
+			}
+			for i := 0; i < n; i++ {
+				s, b := genNumText(t)
+				if rapid.IntRange(0, 5).Draw(t, "emptytext") == 0 {
+					s, b = "", true // strconv rejects the empty text like any other malformed number
+				}
+				c.Texts = append(c.Texts, s)
+				nt = nt || b
+			}
+			c.Spaces = rapid.SampledFrom([]string{" ", "", "  "}).Draw(t, "sp")
+		case "parts":
+			s, b := genNumText(t)
+			nt = b
+			s = strings.TrimLeft(s, "+-")
+			if s == "" {
+				s = "1"
+			}
+			if rapid.Bool().Draw(t, "leadsign") {
+				c.Texts = append(c.Texts, rapid.SampledFrom([]string{"-", "+"}).Draw(t, "sign"))
+			}
+			switch rapid.IntRange(0, 3).Draw(t, "tail") {
+			case 0:
+				c.Texts = append(c.Texts, s)
+			case 1: // an exponent written apart: 1e +5
+				c.Texts = append(c.Texts, rapid.SampledFrom([]string{"1e", "2.5e", "1E", "0x1p", "9e"}).Draw(t, "mant"), rapid.SampledFrom([]string{"-", "+"}).Draw(t, "esign"), rapid.SampledFrom([]string{"5", "2", "400", "0", "x"}).Draw(t, "exp"))
+				nt = true
+			default:
+				s2, _ := genNumText(t)
+				s2 = strings.TrimLeft(s2, "+-")
+				if s2 == "" {
+					s2 = "0"
+				}
+				c.Texts = append(c.Texts, s, rapid.SampledFrom([]string{"-", "+"}).Draw(t, "sign2"), s2)
+			}
+			c.Spaces = rapid.SampledFrom([]string{"", "", " "}).Draw(t, "sp")
 		case "twice":
 			s1, b1 := genNumText(t)
 			s2, b2 := genNumText(t)
@@ -631,6 +807,9 @@ func TestC17(t *testing.T) {
 			if c.Shape == "after" || c.Shape == "outer" || c.Shape == "negated" {
 				c.Spaces = rapid.SampledFrom([]string{"", "", " ", "\n"}).Draw(t, "sp")
 			}
+		}
+		if (c.Shape == "signed" || c.Shape == "signedptr" || c.Shape == "parts" || c.Shape == "slicecap") && rapid.IntRange(0, 39).Draw(t, "par") == 0 {
+			c.Par = rapid.SampledFrom([]int{2, 4, 8}).Draw(t, "goroutines")
 		}
 		o := checkC17(c, r)
 		if nt {
